@@ -14,6 +14,13 @@
 //   defw <kind> <vz> <vy> <vx> <only2d> -> the default weights as computed by the class (read back with get_weights())
 //   img <cur|inp|out> <values...>       -> ok
 //   value | grad | htimes | hrow z y x | approx | surr      (see Driver/C09.lean)
+// Object life cycle (one prior OBJECT, its members kept by the driver; Model.lean: NbPrior):
+//   onew <Q|R|L|P> <pf> <only2d-arg> <gamma> <eps> <scalar>          constructor                                    -> ok
+//   oparse <kind> <pf> <only2d> <gamma> <eps> <scalar> W <nz> {<ny> {<nx> <values>}}   parse() of a parameter text  -> ok | err
+//   obox <z0 z1 y0 y1 x0 x1>   image box of the following img/okappa/oanat lines                                    -> ok
+//   okappa <0|1> [values] | oanat <values> | osetw <box> [values] | oset <pf|gamma|eps|scalar|alpha|eta|only2d> <v> | osetup  -> ok
+//   ocall <vz> <vy> <vx> <value|grad|htimes|hrow z y x|approx|surr>    API call with images of that voxel size      -> as above
+//   owts                                                              get_weights(): <box> [values]
 #include "stir_fixtures.h"
 #include "common.h"
 #include "stir/recon_buildblock/QuadraticPrior.h"
@@ -1074,7 +1081,7 @@ gen_cfg(vh::Rng& rng, char kind, int k, bool thorough)
 //  * setters (penalisation factor, gamma, epsilon, scalar, weights, kappa; PLS: only_2D, alpha, eta) on an object that has been used.
 static std::string scratch_prefix;
 
-static const char* const KEY_STALE = "neighbourhood-priors:default-weights-stale-after-set_up-with-other-voxel-size";
+static const char* const KEY_STALE = ""; // repaired (C09-4): strict
 
 static std::vector<std::string>
 fns_of(char kind)
@@ -1863,7 +1870,7 @@ replay_stale_witness()
   shared_ptr<Prior> F = build(c, c.pf, l);
   const double fresh = F->compute_value(*l);
   verdict(fresh == 1., c, "the implementation reproduces the number of the Lean instance (fresh object)", fresh, 1, 0);
-  verdict(used == 2. || used == 1., c, "the implementation reproduces the number of the Lean negative witness (re-used object)", used, 2, 0);
+  verdict(used == 1., c, "the implementation reproduces the number of the Lean instance (re-used object)", used, 1, 0);
   verdict(used == fresh, c, "an object set up again for another image gives the result of a fresh object (Lean negative witness replayed)", used, fresh, 0, KEY_STALE);
 }
 
@@ -1902,7 +1909,7 @@ main(int argc, char** argv)
       // ---- object life cycle (see above)
       {
         const char k4[4] = { 'Q', 'R', 'L', 'P' };
-        const int m = thorough ? 3 : 1;
+        const int m = thorough ? 8 : 2;
         for (int ki = 0; ki < 3; ++ki)
           for (int k = 0; k < 10 * m; ++k)
             session_first_call(rng, k4[ki], k, thorough);
